@@ -51,6 +51,9 @@ type phaseTable struct {
 	GeneratedSetup     struct {
 		Patterns []string `json:"patterns"`
 	} `json:"generated_setup_regex"`
+	GeneratedScoped struct {
+		Patterns []string `json:"patterns"`
+	} `json:"generated_request_scoped_regex"`
 }
 
 // ---------------------------------------------------------------- model
@@ -1687,6 +1690,7 @@ func main() {
 	}
 	// generated packages
 	nGenFiles := 0
+	var genScoped []string
 	if *gen != "" {
 		var gdirs []string
 		filepath.Walk(*gen, func(path string, info os.FileInfo, err error) error {
@@ -1710,7 +1714,11 @@ func main() {
 				continue
 			}
 			// command-line parsers are client tooling, not part of the request path
-			if strings.Contains(rel, "/cli") {
+			isCLI := false
+			for _, part := range parts {
+				isCLI = isCLI || part == "cli"
+			}
+			if isCLI {
 				continue
 			}
 			p, err := loadPkg("gen:"+rel, d, true, nil)
@@ -1721,6 +1729,14 @@ func main() {
 			for i, f := range p.files {
 				if p.fnames[i] == "cli.go" {
 					delete(p.emit, f)
+				}
+			}
+			for name := range p.structs {
+				for _, pt := range t.tbl.GeneratedScoped.Patterns {
+					if regexp.MustCompile(pt).MatchString(name) {
+						p.reqScoped[name] = true
+						genScoped = append(genScoped, p.id+"."+name)
+					}
 				}
 			}
 			nGenFiles += len(p.emit)
@@ -1741,6 +1757,15 @@ func main() {
 			}
 			scoped[d+"."+k] = map[string]any{"why": why, "allocation_sites": sites}
 		}
+	}
+
+	sort.Strings(genScoped)
+	for _, k := range genScoped {
+		sites := t.litSites[k]
+		if len(sites) == 0 || sites["setup"] > 0 {
+			fatal("generated type %s matches generated_request_scoped_regex but its allocation sites are %v (need: at least one, all in request-phase code)", k, sites)
+		}
+		scoped[k] = map[string]any{"why": "generated stream object allocated per request (pattern of phases.json)", "allocation_sites": sites}
 	}
 
 	// numbering
@@ -1770,7 +1795,27 @@ func main() {
 	for m := range muSet {
 		mus = append(mus, m)
 	}
-	sort.Strings(locs)
+	// locations written by request bodies get the smallest numbers: the Coq checker works on
+	// unary naturals and only ever compares against written locations
+	writtenFirst := map[string]bool{}
+	for _, b := range t.bodies {
+		for _, p := range b.Paths {
+			for _, a := range p {
+				if (a.Kind == "Acc" || a.Kind == "AAcc") && a.Write {
+					writtenFirst[a.Name] = true
+				}
+			}
+		}
+	}
+	for l := range t.opaque {
+		writtenFirst[l] = true
+	}
+	sort.Slice(locs, func(i, j int) bool {
+		if writtenFirst[locs[i]] != writtenFirst[locs[j]] {
+			return writtenFirst[locs[i]]
+		}
+		return locs[i] < locs[j]
+	})
 	sort.Strings(mus)
 	locID, muID := map[string]int{}, map[string]int{}
 	for i, l := range locs {
